@@ -22,7 +22,7 @@ import (
 func TestVerifC13(t *testing.T) {
 	vfMain(t, vfCheck{
 		ID: "C13", Level: "fault_enumeration",
-		Rule: "for each transfer API {WriteAt, Write, ReadFrom (sized and opaque source), ReadFromWithConcurrency, ReadAt, Read, WriteTo} x UseConcurrentReads/Writes x P in {1,3,64} x C in {1,2,3,64}: a 12-chunk transfer (last chunk full or short) with a failure injected at every single chunk index, plus seeded pairs and triples of failing chunks, a failure on the last short chunk, and reads that run into end of file inside or at a chunk boundary before/after a failing chunk; replies arrive in seeded permutations. A class is (API, options, P, C, failing set shape).",
+		Rule:        "for each transfer API {WriteAt, Write, ReadFrom (sized and opaque source), ReadFromWithConcurrency, ReadAt, Read, WriteTo} x UseConcurrentReads/Writes x P in {1,3,64} x C in {1,2,3,64}: a 12-chunk transfer (last chunk full or short) with a failure injected at every single chunk index, plus seeded pairs and triples of failing chunks, a failure on the last short chunk, and reads that run into end of file inside or at a chunk boundary before/after a failing chunk; replies arrive in seeded permutations. A class is (API, options, P, C, failing set shape).",
 		Assumptions: []string{"the count is not required to be maximal, only to name an intact contiguous prefix", "race detector on"},
 		Units: func(tier vfTier, seed uint64) int {
 			if tier == vfThorough {
